@@ -1,0 +1,87 @@
+//go:build verif
+
+package mqtt
+
+// Contracts for the MQTT 3.1.1 codec (property C16; safety obligations also serve C09).
+// The oracle is the standard, written once as spec functions: section 2.2 (fixed header), 2.2.3 (remaining
+// length), 1.5.3 (length-prefixed strings), 3.1-3.14 (packet layouts). Nothing here is compiled into the broker.
+
+import vs "github.com/emitter-io/emitter/internal/verifspec"
+
+// ---------------------------------------------------------------------------------------------------------
+// 1.5.3 / 2.2.3 primitives
+
+// specMaxBody bounds the buffers the decoders see: a remaining length has at most four 7-bit digits (2.2.3), and
+// beyond 2^32-2 bytes the uint32 cursor arithmetic of the decoders wraps (found by the solver).
+const specMaxBody = 268435455
+
+// specU16 is the big-endian 16-bit integer at b[at:at+2].
+func specU16(b []byte, at int) uint16 { return uint16(b[at])<<8 | uint16(b[at+1]) }
+
+//@ verify writeUint16 pre=pre_writeUint16 post=post_writeUint16 props=C16,C09
+func pre_writeUint16(buf []byte) bool { return len(buf) >= 2 }
+func post_writeUint16(buf []byte, v uint16, old_buf []byte, res0 int) bool {
+	return res0 == 2 && specU16(buf, 0) == v &&
+		vs.Forall(2, len(buf), func(i int) bool { return buf[i] == old_buf[i] })
+}
+
+//@ verify writeUint8 pre=pre_writeUint8 post=post_writeUint8 props=C16,C09
+func pre_writeUint8(buf []byte) bool { return len(buf) >= 1 }
+func post_writeUint8(buf []byte, v uint8, old_buf []byte, res0 int) bool {
+	return res0 == 1 && buf[0] == v && vs.Forall(1, len(buf), func(i int) bool { return buf[i] == old_buf[i] })
+}
+
+//@ verify boolToUInt8 post=post_boolToUInt8 props=C16
+func post_boolToUInt8(v bool, res0 uint8) bool { return (v && res0 == 1) || (!v && res0 == 0) }
+
+// specRLBytes is the number of remaining-length digits of n (2.2.3, n < 2^28).
+func specRLBytes(n uint32) uint8 {
+	if n < 128 {
+		return 1
+	}
+	if n < 16384 {
+		return 2
+	}
+	if n < 2097152 {
+		return 3
+	}
+	return 4
+}
+
+// specRLDigit is digit k (least significant 7-bit group first) with the continuation bit set unless it is the last.
+func specRLDigit(n uint32, k uint8) uint32 {
+	d := (n >> (7 * uint32(k))) & 0x7f
+	if k+1 < specRLBytes(n) {
+		d |= 0x80
+	}
+	return d
+}
+
+// specRLField is the digit string as encodeLength packs it into a word: first digit in the most significant used byte.
+func specRLField(n uint32) uint32 {
+	switch specRLBytes(n) {
+	case 1:
+		return specRLDigit(n, 0)
+	case 2:
+		return specRLDigit(n, 0)<<8 | specRLDigit(n, 1)
+	case 3:
+		return specRLDigit(n, 0)<<16 | specRLDigit(n, 1)<<8 | specRLDigit(n, 2)
+	}
+	return specRLDigit(n, 0)<<24 | specRLDigit(n, 1)<<16 | specRLDigit(n, 2)<<8 | specRLDigit(n, 3)
+}
+
+//@ verify encodeLength pre=pre_encodeLength post=post_encodeLength props=C16
+//@ loop encodeLength 0 unroll 4
+func pre_encodeLength(bodyLength uint32) bool { return bodyLength < 268435456 }
+func post_encodeLength(bodyLength uint32, res0 uint8, res1 uint32) bool {
+	return res0 == specRLBytes(bodyLength) && res1 == specRLField(bodyLength)
+}
+
+// readUint16 / readString: the cursor protocol of the decoders.
+//@ verify readUint16 pre=pre_readUint16 post=post_readUint16 props=C16
+func pre_readUint16(b []byte, startsAt *uint32) bool {
+	return startsAt != nil && int(*startsAt)+2 <= len(b) && len(b) <= specMaxBody
+}
+func post_readUint16(b []byte, startsAt *uint32, old_startsAt uint32, res0 uint16) bool {
+	return *startsAt == old_startsAt+2 && res0 == specU16(b, int(old_startsAt))
+}
